@@ -2,6 +2,7 @@ package props
 
 import (
 	"fmt"
+	"math"
 
 	"verifharness/model"
 
@@ -15,11 +16,15 @@ type Assign struct {
 	Elem *model.Elem `json:"elem,omitempty"`
 	Str  *string     `json:"str,omitempty"`
 	Node *model.Node `json:"node,omitempty"`
+	// Rename binds the variable to another variable name (a fill-in value that is itself a name).
+	Rename string `json:"rename,omitempty"`
 }
 
 // goValue converts a binding to the Go value FillVariables expects.
 func (a Assign) goValue(variant int) interface{} {
 	switch {
+	case a.Rename != "":
+		return a.Rename
 	case a.Elem != nil:
 		return goArg(a.Kind, *a.Elem, variant)
 	case a.Str != nil:
@@ -135,4 +140,115 @@ func completeMessage(m *ast.DataMessage, h Hdr, fill map[string]interface{}, ord
 		}
 	}
 	return m
+}
+
+// errRefused is returned by the model when a fill must be refused.
+type errRefused string
+
+func (e errRefused) Error() string { return string(e) }
+
+// substModel is the reference semantics of FillVariables without ellipses:
+// every variable position whose name is bound is replaced by the bound value
+// (or renamed when the binding is a rename), everything else stays in place.
+func substModel(n *model.Node, bind map[string]Assign) (*model.Node, error) {
+	if n.Bulk != nil {
+		return n.Clone(), nil
+	}
+	out := &model.Node{Kind: n.Kind}
+	switch n.Kind {
+	case model.L:
+		for _, c := range n.Children {
+			if c.Node != nil {
+				sub, err := substModel(c.Node, bind)
+				if err != nil {
+					return nil, err
+				}
+				out.Children = append(out.Children, model.Child{Node: sub})
+				continue
+			}
+			a, ok := bind[c.Var]
+			switch {
+			case !ok:
+				out.Children = append(out.Children, c)
+			case a.Rename != "":
+				out.Children = append(out.Children, model.Child{Var: a.Rename})
+			case a.Node != nil:
+				out.Children = append(out.Children, model.Child{Node: a.Node.Clone()})
+			default:
+				return nil, errRefused("list variable bound to a non-item value")
+			}
+		}
+	case model.A:
+		if n.AVar == nil {
+			out.Str = n.Str
+			return out, nil
+		}
+		a, ok := bind[n.AVar.Name]
+		if !ok {
+			av := *n.AVar
+			out.AVar = &av
+			return out, nil
+		}
+		if a.Str == nil {
+			return nil, errRefused("ASCII variable bound to a non-string value")
+		}
+		if len(*a.Str) < n.AVar.Min || (n.AVar.Max != -1 && len(*a.Str) > n.AVar.Max) {
+			return nil, errRefused("string length outside the declared bounds")
+		}
+		for i := 0; i < len(*a.Str); i++ {
+			if (*a.Str)[i] >= 0x80 {
+				return nil, errRefused("non-ASCII string")
+			}
+		}
+		out.Str = *a.Str
+	default:
+		out.Elems = make([]model.Elem, len(n.Elems))
+		for i, e := range n.Elems {
+			if e.Var == "" {
+				out.Elems[i] = e
+				continue
+			}
+			a, ok := bind[e.Var]
+			switch {
+			case !ok:
+				out.Elems[i] = e
+			case a.Rename != "":
+				out.Elems[i] = model.Elem{Var: a.Rename}
+			case a.Elem != nil && a.Kind == n.Kind:
+				if !elemInDomain(n.Kind, *a.Elem) {
+					return nil, errRefused("value outside the item's domain")
+				}
+				out.Elems[i] = *a.Elem
+			default:
+				return nil, errRefused("element variable bound to a value of another kind")
+			}
+		}
+	}
+	return out, nil
+}
+
+func bindMap(as []Assign) map[string]Assign {
+	m := make(map[string]Assign, len(as))
+	for _, a := range as {
+		m[a.Name] = a
+	}
+	return m
+}
+
+// elemInDomain reports whether the element value is representable by the kind.
+func elemInDomain(kind string, e model.Elem) bool {
+	switch {
+	case model.IsSigned(kind):
+		lo, hi := intRangeOf(kind)
+		return e.I >= lo && e.I <= hi
+	case model.IsUnsigned(kind) || kind == model.B:
+		return e.U <= uintMaxOf(kind)
+	case kind == model.F4:
+		f := math.Float64frombits(e.F)
+		return !math.IsNaN(f) && !math.IsInf(f, 0) && math.Abs(f) <= math.MaxFloat32
+	case kind == model.F8:
+		f := math.Float64frombits(e.F)
+		return !math.IsNaN(f) && !math.IsInf(f, 0)
+	}
+	return true
 }
